@@ -428,6 +428,7 @@ CHECKS['C06'].families.append('manual_step')
 CHECKS['C08'].families.append('fwdback_timeout_enum')
 CHECKS['C02'].families.append('capacity')  # bursts that fill the bounded queue: order among accepted events, rejected ones aside
 CHECKS['C07'].families.append('late_fwd')
+CHECKS['C15'].families.append('stop_enum')  # wait_until_idle() on a bus that was stopped clean (a plain stopped bus abandons its backlog by design and stays excluded)
 CHECKS['C10'].families.append('cyclic_timeout_enum')  # one narrow circular child graph (the root handed on by its own child) under the enumerated timeout
 CHECKS['C11'].families.append('strict_warnings')  # programs run with UserWarning promoted to an error
 CHECKS['C08'].families.append('stop_enum')  # a bus stopped while another bus's handler is processing one of its events inline
